@@ -482,11 +482,56 @@ impl Lists {
     }
 }
 
+// ---------------------------------------------------------------------------
+// bare identifiers that are also names of built-in functions, macros or types
+
+const NAMES_LIKE_BUILTINS: [&str; 10] = ["size", "max", "min", "filter", "map", "has", "coalesce", "abs", "contains", "zz"];
+
+fn run_names(idx: u64, acc: &mut Acc) {
+    let d = unrank(idx, &[NAMES_LIKE_BUILTINS.len() as u64, 3]);
+    let name = NAMES_LIKE_BUILTINS[d[0] as usize];
+    // 0: unbound as a variable, 1: bound to 7, 2: bound to null
+    let mut b = BindContext::new();
+    b.bind_func("v", &v_impl);
+    let (h, c): (HR, CR) = match d[1] {
+        0 => (HR::False, CR::Default),
+        1 => {
+            b.bind_param(name, CelValue::Int(7));
+            (HR::True, CR::Val(V::Int(7)))
+        }
+        _ => {
+            b.bind_param(name, CelValue::Null);
+            (HR::True, CR::Default)
+        }
+    };
+    let bdesc = format!("{} {}", name, ["not bound as a variable", "= 7", "= null"][d[1] as usize]);
+    let site = format!("identifier named like a built-in ({})", ["unbound", "bound", "bound to null"][d[1] as usize]);
+    acc.nontrivial(&("names", idx));
+    let h_src = format!("has({})", name);
+    for ctx in HAS_CTX {
+        let src = ctx.replace('$', &h_src);
+        check(acc, &format!("{} has in `{}`", site, ctx), &src, &bdesc, &has_ctx_expected(ctx, &h), &b);
+    }
+    let c_src = format!("coalesce({}, 'dflt')", name);
+    for ctx in CO_CTX {
+        let src = ctx.replace('$', &c_src);
+        check(acc, &format!("{} coalesce in `{}`", site, ctx), &src, &bdesc, &co_ctx_expected(ctx, &c), &b);
+    }
+    // and as the root of a path
+    let src = format!("has({}.a)", name);
+    let want = match d[1] {
+        0 => Ok(V::Bool(false)),
+        _ => return,
+    };
+    check(acc, &format!("{} has on a path", site), &src, &bdesc, &want, &b);
+}
+
 pub fn replay_families(t: Tier) -> Vec<Family<'static>> {
     let l: &'static Lists = Box::leak(Box::new(Lists::new(t)));
     vec![
         Family::new("paths", 5 * 6 * TERMS.len() as u64 * PFORMS.len() as u64, run_path),
         Family::new("coalesce-lists", l.size(), move |i, a| l.run(i, a)),
+        Family::new("names", NAMES_LIKE_BUILTINS.len() as u64 * 3, run_names),
     ]
 }
 
@@ -494,11 +539,12 @@ pub fn run(t: Tier) -> i32 {
     let mut rep = Report::new(ID, t, "exploration");
     let l = Lists::new(t);
     rep.rule = format!(
-        "paths: field paths r, r.a, .. r.a.b.c.d in 4 spellings (dots, ['k'] indices, alternating, variable keys) x every binding configuration (the chain stops at any level with the root unbound / a field missing, null, an int, a string, a list or an empty map; or reaches the leaf, which is null, a value, or a map) x has() in 9 contexts (top level, map and filter bodies, ?:, nested has, !, &&, all, nested exists) and through a loop variable, and coalesce(e, 'dflt') in 5 contexts and through a loop variable; expected from the two-class lattice absent/other; for a field looked up on a non-map (class not fixed by the statement) the implementation's own top-level has() answer (false or failure, never true) must be reproduced in every context and by coalesce. coalesce-lists: every argument list of length 0..{} over 14 items (present, null, unbound, missing field/index, null field, foldable and run-time division by zero, type error, bad index, call-recording present/null) in 4 contexts: result and the exact set of evaluated call-recording arguments. Non-trivial = every enumerated configuration; distinct by index",
+        "paths: field paths r, r.a, .. r.a.b.c.d in 4 spellings (dots, ['k'] indices, alternating, variable keys) x every binding configuration (the chain stops at any level with the root unbound / a field missing, null, an int, a string, a list or an empty map; or reaches the leaf, which is null, a value, or a map) x has() in 9 contexts (top level, map and filter bodies, ?:, nested has, !, &&, all, nested exists) and through a loop variable, and coalesce(e, 'dflt') in 5 contexts and through a loop variable; expected from the two-class lattice absent/other; for a field looked up on a non-map (class not fixed by the statement) the implementation's own top-level has() answer (false or failure, never true) must be reproduced in every context and by coalesce. coalesce-lists: every argument list of length 0..{} over 14 items (present, null, unbound, missing field/index, null field, foldable and run-time division by zero, type error, bad index, call-recording present/null) in 4 contexts: result and the exact set of evaluated call-recording arguments. names: bare identifiers spelled like built-in functions/macros (size, max, filter, map, has, ...) unbound / bound / bound to null, in all has and coalesce contexts. Non-trivial = every enumerated configuration; distinct by index",
         t.pick(4, 5)
     );
     rep.run_family(Family::new("paths", 5 * 6 * TERMS.len() as u64 * PFORMS.len() as u64, run_path));
     rep.run_family(Family::new("coalesce-lists", l.size(), |i, a| l.run(i, a)));
+    rep.run_family(Family::new("names", NAMES_LIKE_BUILTINS.len() as u64 * 3, run_names));
     rep.assumptions = vec![
         "a field or key looked up on a value that is not a map may count as absent or as another failure; only consistency is demanded there".into(),
         "failure kinds are not compared beyond the absent/other split, which is observed through has() and coalesce() themselves".into(),
